@@ -53,6 +53,9 @@ type Ctx struct {
 	nonzero  map[string]bool
 	sliceParts map[string][4]string
 	bitFoot    map[string][2]int
+	arrDef     map[string]string    // named inner array constant -> its defining term (a short chain of stores over an older array)
+	arrChain   map[string]*arrLink
+	frameDef   map[string]frameDef  // loop-havocked heap constant -> (heap at loop entry, loop assign targets)
 	heapDef    map[string][3]string // named heap constant -> (base heap, object ref, inner value) of its defining store
 	finalObl   bool // obligations at a return: nothing follows, so they are not added to the assumptions
 	skForm     map[string]string // quantified goal -> form with goal-position quantifiers skolemised
@@ -66,7 +69,7 @@ type Ctx struct {
 func newCtx(P *Program) *Ctx {
 	c := &Ctx{P: P, declared: map[string]bool{}, sorts: map[string]string{}, structs: map[string]*types.Struct{},
 		heapSort: map[string]string{}, typeIDs: map[string]int{}, notes: map[string]bool{}, ordinals: map[string]int{},
-		strLits: map[string]bool{}, nonzero: map[string]bool{}, sliceParts: map[string][4]string{}, skForm: map[string]string{}, heapDef: map[string][3]string{},
+		strLits: map[string]bool{}, nonzero: map[string]bool{}, sliceParts: map[string][4]string{}, skForm: map[string]string{}, heapDef: map[string][3]string{}, frameDef: map[string]frameDef{}, arrDef: map[string]string{}, arrChain: map[string]*arrLink{},
 		heapCellT: map[string]types.Type{}, heapDims: map[string]int{}, heapKeyS: map[string]string{}, heapReg: map[string]func(*Ctx){}}
 	c.typeByID = append(c.typeByID, nil)
 	c.decls = append(c.decls, "(assert (forall ((a! (Array Int Int)) (o! Int) (n! Int)) (! (= (bv.len (bv.of a! o! n!)) n!) :pattern ((bv.of a! o! n!)))))")
@@ -132,6 +135,14 @@ func (c *Ctx) assume(guard, fact string) {
 	if fact == "true" {
 		return
 	}
+	if len(c.arrDef) > 0 && len(fact) < 400000 && strings.Contains(fact, "(select (select ") && !strings.Contains(fact, "(forall ") && !strings.Contains(fact, "(exists ") {
+		// resolve reads of byte buffers through their store chains here (store forwarding), so that the fact
+		// speaks about the stored values themselves
+		fact = c.simplify(fact)
+		if fact == "true" {
+			return
+		}
+	}
 	c.assert(implies(guard, fact))
 }
 
@@ -174,9 +185,23 @@ func (c *Ctx) oblige(kind string, tags []string, guard, goal, where, detail stri
 		c.obls = append(c.obls, o)
 	}
 	if !c.finalObl {
-		c.assume(guard, goal)
+		// assert-then-assume — but only what this run also checks: an obligation that belongs to another
+		// property's check is not counted here, so it must not be assumed here either (a change that breaks it
+		// would otherwise make everything after it hold vacuously in this check).
+		// (Run-time panics are the exception: execution only continues past a dereference, index, division, type
+		// assertion or make if it did not panic, so their conditions hold on every path that goes on.)
+		if checkProp == "" || kind == "cover" || panicKinds[kind] || (&Obligation{Kind: kind, Tags: tags}).servesProp(checkProp) {
+			c.assume(guard, goal)
+		}
 	}
 }
+
+var panicKinds = map[string]bool{"nil": true, "index": true, "slice": true, "div": true, "nilinvoke": true, "nilmap": true, "typeassert": true, "panic": true, "makeslice": true, "nilcall": true}
+
+// checkProp is the property whose check is running ("" in `govc func` mode: everything is shown and assumed).
+var checkProp string
+
+func (o *Obligation) servesProp(prop string) bool { return oblServes(o, prop) }
 
 func qsym(s string) string {
 	simple := true
@@ -759,6 +784,7 @@ func (s *State) set(name, term string) {
 				if len(inner) > 60 {
 					ia := c.freshConst("arr:"+name, strings.TrimSuffix(strings.TrimPrefix(srt, "(Array Int "), ")"))
 					c.assert(eq(ia, inner))
+					c.arrDef[ia] = inner
 					inner = ia
 				}
 				k := c.freshConst("h:"+name, srt)
@@ -853,4 +879,10 @@ func (c *Ctx) mergeStates(gs []guardedState) *State {
 		out.heap[k] = m
 	}
 	return out
+}
+
+type frameDef struct {
+	old     string
+	targets []assignTarget
+	heap    string
 }
